@@ -33,7 +33,8 @@ CHECKS = {
              "consumed+reserved+in_pool > original or a negative counter, and that the pool equals lots moved in minus "
              "s104 legs so far. Independent of the identification model, so it stays meaningful where C01 would be in doubt.",
         note="Strict workload classes only (no split on a trade date of the same security: that convention is not fixed "
-             "by any property). Tolerance 1e-15 + 1e-18*scale for decimal residue.",
+             "by any property). Tolerance 1e-15 + 1e-18*scale for decimal residue. "
+             "Later addition: a labelled class with SPLIT/UNSPLIT on trade dates judged only by the tool's own views agreeing with each other (matcher net position vs Section 104 pool vs reported holding; hook H2); F15 divergences there are known-finding signatures.",
         ref="DESIGN.md §3 C02"),
     "C03": dict(
         technique="runtime monitor: per-security cost conservation over observed legs/holdings, with the adjustments "
@@ -43,7 +44,8 @@ CHECKS = {
              "the net amounts of exactly the capital events dated while shares were held (never a fraction of an event). "
              "Includes a foreign-currency class converted by an independent reading of the bundled HMRC XML.",
         note="An event dated when the model holding is exactly zero after a non-terminating split ratio is left open "
-             "here (decimal residue decides; reported by C11). Strict classes only.",
+             "here (decimal residue decides; reported by C11). Strict classes only. "
+             "A labelled split-on-trade-date class judges an event by the reading of 'held' that the report's own closing holding shows. Without hooks (tree does not compile with verif-hooks) conservation is checked against the model's event amounts instead.",
         ref="DESIGN.md §3 C03"),
     "C05": dict(
         technique="runtime monitor: accept/reject of the real calculate() and of the real CLI process compared with an "
@@ -87,7 +89,8 @@ CHECKS = {
         text="All 73,414 dates (plus 800 rejected neighbours) are pushed through the real from_date; for every Y in "
              "1900..2100 a ledger selling on 5/6 April and a random day is checked in all-years mode and under filters "
              "Y-1, Y, Y+1; random multi-year ledgers are checked under every in-range filter (incl. years without "
-             "disposals): a year report must equal that year's slice (Decimal ==) and holdings the full history.",
+             "disposals): a year report must equal that year's slice (Decimal ==) and holdings the full history. "
+             "Every SELL day must be listed in exactly one tax year of the all-years report; ledgers reaching outside the embedded exemption table are also run under that table (if a report is produced no sale may be missing; year-restricted reports are compared with the fully configured all-years report).",
         note="MCP explain_matching's own year derivation is exercised by C20's history checker on boundary-day disposals.",
         ref="DESIGN.md §3 C07"),
     "C09": dict(
@@ -104,7 +107,8 @@ CHECKS = {
         text="Ledgers with splits/unsplits anywhere relative to sales, 30-day windows and capital events are compared "
              "with their twin in post-split units (exact class: ratios with terminating reciprocals, 1e-9; rounded "
              "class: any ratio, twin rounded at 18 dp, 1e-7 relative): gains, proceeds, costs, closing cost equal, "
-             "quantities scaled; a SPLIT r/UNSPLIT r pair at an idle date changes nothing.",
+             "quantities scaled; a SPLIT r/UNSPLIT r pair at an idle date changes nothing. "
+             "A set-valued class covers splits on trade dates: the report must equal the post-split-units twin under at least one of the two readings (that date's other lines pre-split / post-split).",
         note="Accept/reject differences caused by ~1e-27-share residue after a non-terminating ratio are the known "
              "finding F3b; dust artefacts of the rounded twin itself are skipped and counted.",
         ref="DESIGN.md §3 C10"),
@@ -114,7 +118,8 @@ CHECKS = {
              "by exactly +-net when shares are held and by 0 when none are, never touch another security or a leg "
              "identified with a later acquisition; equal ACCUMULATION+CAPRETURN cancel; a DIVIDEND changes dividend "
              "totals only; no leg/holding cost is negative; a return above the expenditure left (read from the tool's "
-             "own prefix report) must be refused citing S122, one below it accepted.",
+             "own prefix report) must be refused citing S122, one below it accepted. "
+             "A labelled class puts SPLIT/UNSPLIT on trade dates and reads the holding from the matching pass's own day-end positions (H2); no leg drawn from acquisitions completely sold before the event may move.",
         note="The F6 family (adjustments attached to whole lots by share count; s122 test sized by a pre-pass that "
              "ignores 30-day identification and pool averaging) is recorded as open findings under narrow signatures; "
              "the never-sold class keeps the s122 test itself observable.",
@@ -149,7 +154,8 @@ CHECKS = {
              "comments, wide spacing, keyword/currency/ticker case, LF/CRLF/CR and missing final newline, and ~16k "
              "one-token corruptions (garbage keyword/number/date/currency, calendar-invalid date, signed or doubly-dotted "
              "number, deleted required token, duplicated clause, stray token) whose error must point at the corrupted line; "
-             "sample through `cgt-tool parse`.",
+             "sample through `cgt-tool parse`. "
+             "Through the real `cgt-tool parse` the same text is also cut at line boundaries into several input files whose non-final parts may lack the final newline.",
         note="Grammar leniencies (keyword glued to ticker, leading whitespace) are not treated as corruptions.",
         ref="DESIGN.md §3 C13, §4 F7"),
     "C14": dict(
@@ -180,7 +186,8 @@ CHECKS = {
              "deposit dates, plus ~2.4k random awards files (1-5 entries, mixed-case symbols, non-vesting noise, entries after "
              "or >7 days before the deposit, no file): the BUY must be dated/priced from the exact-date entry or the nearest "
              "earlier one within 7 days, vest-specific value over fallback, and otherwise conversion must fail with "
-             "MissingFairMarketValue naming symbol and date.",
+             "MissingFairMarketValue naming symbol and date. "
+             "Exports with several deposit rows (different symbols on one date, one symbol on several dates; each row identified by its own quantity) are judged row by row.",
         note="Two entries offering one date: either value accepted (cross-entry precedence is not specified).",
         ref="DESIGN.md §3 C19"),
     "C15": dict(
@@ -203,7 +210,8 @@ CHECKS = {
              "of each HashMap drain (evidence: thousands of distinct orders seen per site) and are repeated under 8 seeded "
              "permutations of every drain - report, text and JSON must be identical and canonically ordered (years ascending, "
              "disposals by date then ticker, holdings by ticker, text-report transactions by date then ticker); report "
-             "plain/json/pdf, parse and convert schwab are run 16 times each in fresh processes and compared byte for byte.",
+             "plain/json/pdf, parse and convert schwab are run 16 times each in fresh processes and compared byte for byte. "
+             "Input lines arrive shuffled, chronological with arbitrary order inside a date, reverse-chronological or grouped by security; six fresh `cgt-tool mcp` servers are given the same tool calls (incl. the error answers that enumerate tickers) and must answer identically.",
         note="Only the converter's '# Converted:' timestamp is masked; PDF comparisons that straddle midnight are skipped.",
         ref="DESIGN.md §3 C16"),
     "C17": dict(
@@ -215,7 +223,8 @@ CHECKS = {
              "exact (PDF: six decimals), dates DD/MM/YYYY, years YYYY/YY, and all three front ends must list the same years, "
              "disposals, legs, holdings and transactions. ~370k figures per quick run.",
         note="A figure recomputed here in exact rationals may differ by ~1e-27 from the tool's own Decimal sum; within 1e-13 of "
-             "a midpoint but not on it either neighbouring penny is accepted. MCP figures are checked by C20.",
+             "a midpoint but not on it either neighbouring penny is accepted. MCP figures are checked by C20. "
+             "The PDF reader recognises the current template by its section titles, labels and per-table header rows; a document or table it does not recognise is not read and makes the run inconclusive (exit 2), never a violation.",
         ref="DESIGN.md §3 C17, §4 F9"),
     "C20": dict(
         technique="runtime monitor: offline checker over recorded JSON-RPC histories (exactly-once per id, liveness, exit "
@@ -226,7 +235,8 @@ CHECKS = {
              "lines, the server must stay up until EOF and exit 0; every answer must equal the answer of a sequential, "
              "shuffled reference session and of fresh processes; calculate_report is compared with the library/CLI JSON "
              "report, explain_matching with the full-precision report for every explained disposal, get_fx_rate with the "
-             "rate table, parse/convert outputs are re-read.",
+             "rate table, parse/convert outputs are re-read. "
+             "Sessions under the embedded exemption table (no config file) with ledgers reaching outside it compare pipelined answers with a second server given the same requests one at a time, and with the library under the same table.",
         note="Open findings F12 (rmcp drops unknown methods / non-object arguments and exits on a non-JSON line) and F8 (overflow "
              "panic leaves one request unanswered) live in a labelled envelope class so the main sessions stay clean.",
         ref="DESIGN.md §3 C20, §4 F8/F12/F13"),
